@@ -102,6 +102,9 @@ func c15seq(c *run.Ctx) {
 		{"exp-now", false, true, func(cl, hd map[string]interface{}, sg *signSpec) { cl["exp"] = now().Unix() }},
 		{"exp-string", false, true, func(cl, hd map[string]interface{}, sg *signSpec) { cl["exp"] = fmt.Sprint(now().Add(time.Hour).Unix()) }},
 		{"exp-bool", false, false, func(cl, hd map[string]interface{}, sg *signSpec) { cl["exp"] = true }},
+		{"exp-past-fraction", false, false, func(cl, hd map[string]interface{}, sg *signSpec) {
+			cl["exp"] = float64(now().Add(-time.Hour).Unix()) + 0.5
+		}},
 		{"exp-zero", false, false, func(cl, hd map[string]interface{}, sg *signSpec) { cl["exp"] = 0 }},
 		{"exp-zero-fraction", false, false, func(cl, hd map[string]interface{}, sg *signSpec) { cl["exp"] = 0.5 }},
 		{"exp-negative", false, false, func(cl, hd map[string]interface{}, sg *signSpec) { cl["exp"] = -1 }},
@@ -416,6 +419,9 @@ func c15Bearer(c *run.Ctx, w0 *world.World, round int) {
 				cl["exp"] = now().Add(-time.Second).Unix()
 			}},
 			{"exp-now", false, true, func(cl, hd map[string]interface{}, sg *signSpec, f url.Values) { cl["exp"] = now().Unix() }},
+			{"exp-past-fraction", false, false, func(cl, hd map[string]interface{}, sg *signSpec, f url.Values) {
+				cl["exp"] = float64(now().Add(-time.Hour).Unix()) + 0.5
+			}},
 			{"exp-zero", false, false, func(cl, hd map[string]interface{}, sg *signSpec, f url.Values) { cl["exp"] = 0 }},
 			{"exp-zero-fraction", false, false, func(cl, hd map[string]interface{}, sg *signSpec, f url.Values) { cl["exp"] = 0.5 }},
 			{"exp-beyond-max", false, false, func(cl, hd map[string]interface{}, sg *signSpec, f url.Values) {
